@@ -97,6 +97,40 @@ func isTrueConst(v ssa.Value) bool {
 func ruleSeparatorAccepts(c *Ctx, a *parserAnchors) {
 	tc := c.tokenConsts()
 	justified := map[*ssa.Function]bool{}
+	judgePath := func(f *ssa.Function, ret *ssa.Return, facts []pathFact, blocks []*ssa.BasicBlock, np *int, allOKp *bool) {
+		*np++
+		n := *np
+		key := fmt.Sprintf("%s: accepting path #%d", fnName(f), n)
+		why := ""
+		for _, pf := range facts {
+			if w := a.acceptFact(c, pf.at, tc, justified); w != "" {
+				why = w
+				// an explicit ';' must be consumed on this path
+				if w == "explicit ';'" {
+					consumed := false
+					for _, b := range blocks {
+						for _, call := range callsIn(b) {
+							if call.Call.StaticCallee() == a.nextTok {
+								consumed = true
+							}
+						}
+					}
+					if !consumed {
+						why = ""
+					}
+				}
+				if why != "" {
+					break
+				}
+			}
+		}
+		if why == "" {
+			*allOKp = false
+			c.bad(key, ret.Pos(), "the separator check reports 'terminated' on a path with none of: ';' consumed, '}' or end of input at peek, peek token after a line break, tolerant mode — two statements can fuse on one line without an error")
+		} else {
+			c.ok(key, ret.Pos(), "justified by: %s", why)
+		}
+	}
 	var judge func(f *ssa.Function, depth int)
 	judge = func(f *ssa.Function, depth int) {
 		if depth > 3 {
@@ -128,6 +162,19 @@ func ruleSeparatorAccepts(c *Ctx, a *parserAnchors) {
 			if isFalseConst(v) {
 				return
 			}
+			// a computed result (`return terminated || p.tolerant`): one accepting path per way it can be true
+			if !isTrueConst(v) {
+				if call, ok := v.(*ssa.Call); !ok || !justified[call.Call.StaticCallee()] {
+					if alts := a.returnAlternatives(v, facts, blocks, last); len(alts) > 0 {
+						for _, ra := range alts {
+							if ra.val {
+								judgePath(f, ret, ra.facts, blocks, &n, &allOK)
+							}
+						}
+						return
+					}
+				}
+			}
 			n++
 			var path []string
 			for _, b := range blocks {
@@ -145,35 +192,8 @@ func ruleSeparatorAccepts(c *Ctx, a *parserAnchors) {
 				allOK = false
 				return
 			}
-			why := ""
-			for _, pf := range facts {
-				if w := a.acceptFact(c, pf.at, tc, justified); w != "" {
-					why = w
-					// an explicit ';' must be consumed on this path
-					if w == "explicit ';'" {
-						consumed := false
-						for _, b := range blocks {
-							for _, call := range callsIn(b) {
-								if call.Call.StaticCallee() == a.nextTok {
-									consumed = true
-								}
-							}
-						}
-						if !consumed {
-							why = ""
-						}
-					}
-					if why != "" {
-						break
-					}
-				}
-			}
-			if why == "" {
-				allOK = false
-				c.bad(key, ret.Pos(), "the separator check reports 'terminated' on a path with none of: ';' consumed, '}' or end of input at peek, peek token after a line break, tolerant mode — two statements can fuse on one line without an error")
-			} else {
-				c.ok(key, ret.Pos(), "justified by: %s", why)
-			}
+			n--
+			judgePath(f, ret, facts, blocks, &n, &allOK)
 		})
 		if !complete {
 			c.unres(fnName(f)+": path enumeration", f.Pos(), "too many paths")
